@@ -56,9 +56,9 @@ def kindDefRule : TypeKind → RuleId
 
 /-- the rule of kind `k'` fails on a definition whose keyword is another word -/
 theorem kindRule_fails {τ : Trivia} (hτ : ∀ q, Ws (τ q)) (k' : TypeKind) (desc : Option String) (w' : List Char)
-    (hw' : validName w') (hne : w' ≠ kindKw k') {p : Nat}
-    (h : HasAt inp p (rOptDesc τ p desc ++ tk τ true (p + (rOptDesc τ p desc).length) w'))
-    (ht : Tok (At inp (p + (rOptDesc τ p desc).length + (tk τ true (p + (rOptDesc τ p desc).length) w').length))) :
+    (hw' : validName w') (hne : w' ≠ kindKw k') {p : Nat} {sK : Bool} {bad : Char → Prop}
+    (h : HasAt inp p (rOptDesc τ p desc ++ tk τ sK (p + (rOptDesc τ p desc).length) w'))
+    (ht : Nxt inp bad sK (p + (rOptDesc τ p desc).length + (tk τ sK (p + (rOptDesc τ p desc).length) w').length)) :
     Fails gList (B (rOptDesc τ p desc).length + 40) true (.call (kindDefRule k')) .nonAtomic (At inp p) := by
   have f : ∀ T, Fails gList (B (rOptDesc τ p desc).length + 30) true
       (.seq (.opt (.call R.Description)) (.seq (.call (kindKwRule k')) T)) .nonAtomic (At inp p) := fun T =>
@@ -76,9 +76,9 @@ theorem kindRule_fails {τ : Trivia} (hτ : ∀ q, Ws (τ q)) (k' : TypeKind) (d
     exact (fails_rule look_InputObjectTypeDefinition (by decide) (by decide) (fails_choice_K (f _) (f _))).mono (by simp)
 
 theorem schemaDef_fails_kw {τ : Trivia} (hτ : ∀ q, Ws (τ q)) (desc : Option String) (w' : List Char)
-    (hw' : validName w') (hne : w' ≠ kwSchema) {p : Nat}
-    (h : HasAt inp p (rOptDesc τ p desc ++ tk τ true (p + (rOptDesc τ p desc).length) w'))
-    (ht : Tok (At inp (p + (rOptDesc τ p desc).length + (tk τ true (p + (rOptDesc τ p desc).length) w').length))) :
+    (hw' : validName w') (hne : w' ≠ kwSchema) {p : Nat} {sK : Bool} {bad : Char → Prop}
+    (h : HasAt inp p (rOptDesc τ p desc ++ tk τ sK (p + (rOptDesc τ p desc).length) w'))
+    (ht : Nxt inp bad sK (p + (rOptDesc τ p desc).length + (tk τ sK (p + (rOptDesc τ p desc).length) w').length)) :
     Fails gList (B (rOptDesc τ p desc).length + 40) true (.call R.SchemaDefinition) .nonAtomic (At inp p) := by
   obtain ⟨tl, hl⟩ := look_SchemaDefinition
   exact (fails_rule hl (by decide) (by decide)
@@ -93,8 +93,8 @@ theorem typeDefWrapK {τ : Trivia} (hτ : ∀ q, Ws (τ q)) (k : TypeKind) (desc
     ∃ e1 e2 e3, RunsK (max n (B (rOptDesc τ p desc).length + 40) + 20) (.call R.TypeSystemDefinitionOrExtension) (At inp p) c'
       [.mk R.TypeSystemDefinitionOrExtension p e3 [.mk R.TypeSystemDefinition p e2 [.mk R.TypeDefinition p e1 [prK]]]] := by
   have fk : ∀ k', k ≠ k' → Fails gList (B (rOptDesc τ p desc).length + 40) true (.call (kindDefRule k')) .nonAtomic (At inp p) :=
-    fun k' hne => kindRule_fails hτ k' desc (kindKw k) (kindKw_valid k) (kindKw_ne hne.symm) h ht
-  have fs := schemaDef_fails_kw hτ desc (kindKw k) (kindKw_valid k) (by cases k <;> decide) h ht
+    fun k' hne => kindRule_fails hτ k' desc (kindKw k) (kindKw_valid k) (kindKw_ne hne.symm) h (nxt_sep ht)
+  have fs := schemaDef_fails_kw hτ desc (kindKw k) (kindKw_valid k) (by cases k <;> decide) h (nxt_sep ht)
   have hTD : ∃ e1, RunsK (max n (B (rOptDesc τ p desc).length + 40) + 8) (.call R.TypeDefinition) (At inp p) c'
       [.mk R.TypeDefinition p e1 [prK]] := by
     have body : RunsK (max n (B (rOptDesc τ p desc).length + 40) + 6) (.choice (.call R.ScalarTypeDefinition)
